@@ -106,6 +106,7 @@ pub fn with_ep_slider_family(mut plan: Plan, tier: Tier) -> Plan {
         // a capturer on both sides of the pushed pawn (each pinned or not independently), every reply applied
         plan.families.push((Box::new(EpTwoFamily { extra: Extra::EnemySlider, pre_push: false }), 1));
     }
+    plan.families.push((Box::new(PawnMovesFirst(ep_discoverers_family())), 1));
     plan
 }
 
@@ -116,6 +117,7 @@ pub fn with_ep_slider_positions(mut plan: Plan, tier: Tier) -> Plan {
         plan.families.push((Box::new(EpFamily { extra: Extra::EnemySlider, pre_push: false }), 0));
         plan.families.push((Box::new(EpTwoFamily { extra: Extra::EnemySlider, pre_push: false }), 0));
     }
+    plan.families.push((Box::new(PawnMovesFirst(ep_discoverers_family())), 1));
     plan
 }
 
